@@ -102,6 +102,25 @@ PROPS["C22"] = dict(
     jobs=[dict(name="e3::reward_flag_propagation", fn=jobs_e3.run_reward_flag)],
 )
 
+# --------------------------------------------------------------------------- C09
+PROPS["C09"] = dict(
+    functions=["revm::handler::mainnet::last_frame_return::<SPEC, (), EmptyDB> (crates/revm/src/handler/mainnet/execution.rs) on a real Context",
+               "revm::handler::mainnet::refund::<LondonSpec|BerlinSpec> (post_execution.rs) incl. Gas::set_final_refund",
+               "the EIP-7623 floor step of Evm::transact_preverified_inner (crates/revm/src/evm.rs): structure from MIR, arithmetic by SMT"],
+    bounds="all u64 tx gas limits, first-frame limits/spent (spent <= frame limit <= tx limit), all non-negative i64 refunds (< 2^60 in refund_cap), 8 result classes "
+           "(3 success, revert, 4 halts), London / pre-London; floor step: all 0 <= used <= limit, 0 <= floor <= limit",
+    outside="intrinsic gas <= gas used at transaction level; the sender paying exactly price x used + blob fee and the beneficiary receiving (price - basefee) x used "
+            "(reimburse_caller / reward_beneficiary go through the journal's hash maps: not encodable, DESIGN §2); exact-intrinsic runs",
+    assumptions=["std::hash::RandomState::new stubbed with fixed keys (the Context's empty maps are never hashed into)",
+                 "frame accounting: first frame limit <= tx gas limit, spent <= limit, refund >= 0", "floor <= gas limit (guaranteed by validate_initial_tx_gas, C02)",
+                 "Gas method semantics as decided under C13", "Kani/CBMC/CaDiCaL, z3, cvc5 trusted"],
+    harnesses=[H("c09::c09_last_frame_return", bounds="all limits/spent/refunds x 8 result classes", stubs_expected=["RandomState"]),
+               H("c09::c09_refund_cap", bounds="all spent/limits, refunds < 2^60, London and Berlin", stubs_expected=["RandomState"]),
+               H("c09::c09_floor_step", bounds="all u64 values with floor <= limit, refund <= spent/2"),
+               H("c09::c09_twin_must_fail", expect_fail=True, bounds="vacuity twin")],
+    jobs=[dict(name="e3::floor_step_structure", fn=jobs_e3.run_floor_step)],
+)
+
 # --------------------------------------------------------------------------- C10
 _C10 = ["sstore", "tstore", "log0", "log2", "log4", "create", "create2", "selfdestruct", "eofcreate"]
 PROPS["C10"] = dict(
@@ -293,6 +312,13 @@ CLAIMS = {
              "Stack depth is arity+1 / arity-1 per harness; the interpreter is assembled field by field with an 8-word stack buffer.",
         technique="Kani/CBMC bounded model checking of the real opcode functions against limb-wise 256-bit reference models (full operand space)",
         design_ref="DESIGN.md §5 C03"),
+    "C09": dict(
+        text="The transaction-level gas bookkeeping is decided on the real functions for all 64-bit values: last_frame_return (gas used <= limit, whole limit on a halt, "
+             "unspent gas back on success/revert, refund only on success) and refund (final refund = min(recorded, spent/5 | spent/2)) by CBMC on a real Context; the "
+             "EIP-7623 floor step is read off the MIR of transact_preverified_inner and its arithmetic is compared by z3/cvc5 with max(spent - refund, floor).",
+        note="Partial: the fee payments to sender and beneficiary and `intrinsic <= used` need the journal (hash maps) and are outside.",
+        technique="Kani/CBMC on the real last_frame_return/refund (full u64 domain) + MIR structure scan with SMT arithmetic check of the floor step",
+        engine="kani-cbmc + smt-mir", design_ref="DESIGN.md §5 C09"),
     "C10": dict(
         text="In a static frame every state-changing opcode function is run on symbolic operands with a host on which any call is a failure: CBMC shows the "
              "result is the static-mode error, nothing is charged, no action is scheduled and the host is never reached; value-bearing CALL/EXTCALL are rejected for "
@@ -342,7 +368,7 @@ CLAIMS = {
         engine="kani-cbmc + smt-mir",
         design_ref="DESIGN.md §5 C32"),
 }
-SMT_SERVES = {"C32", "C07", "C22", "C20", "C21", "C05", "C10"}
+SMT_SERVES = {"C32", "C07", "C22", "C20", "C21", "C05", "C10", "C09"}
 
 # --------------------------------------------------------------------------- not applicable (reason shown in MANIFEST.json)
 NOT_APPLICABLE = {
